@@ -117,6 +117,18 @@ static const struct item items[] = {
     {"2xRequest-Tag", G_NONE, 2, {{292, "a", 1}, {292, "b", 1}}, 1},
     {"Echo", G_NONE, 1, {{252, "e1", 2}}, 1},
     {"Request-Tag", G_NONE, 1, {{292, "a", 1}}, 1},
+    /* the length sweep: options at the smallest and largest value length their definition allows (RFC 7252 5.10, 7959, 9175): a
+     * well-formed request whatever the length, so the reply follows the same rules */
+    {"If-Match=(empty)", G_NONE, 1, {{1, "", 0}}, 1},
+    {"If-Match=8B", G_NONE, 1, {{1, "12345678", 8}}, 1},
+    {"ETag=1B", G_NONE, 1, {{4, "t", 1}}, 1},
+    {"ETag=8B", G_NONE, 1, {{4, "12345678", 8}}, 1},
+    {"Max-Age=4B", G_NONE, 1, {{14, "\x01\x02\x03\x04", 4}}, 1},
+    {"Size1=4B", G_NONE, 1, {{60, "\x00\x01\x00\x00", 4}}, 1},
+    {"Request-Tag=(empty)", G_NONE, 1, {{292, "", 0}}, 1},
+    {"Request-Tag=8B", G_NONE, 1, {{292, "12345678", 8}}, 1},
+    {"Echo=1B", G_NONE, 1, {{252, "e", 1}}, 1},
+    {"Echo=40B", G_NONE, 1, {{252, "0123456789012345678901234567890123456789", 40}}, 1},
 };
 #define N_ITEMS ((int)(sizeof items / sizeof items[0]))
 
@@ -334,7 +346,7 @@ decode(const struct space *s, uint64_t idx, struct casedef *c) {
 struct seen_opt {
   uint32_t num;
   size_t len;
-  uint8_t val[16];
+  uint8_t val[48];
 };
 struct hlog {
   int rid;       /* resource index, RS_H_UNKNOWN, RS_H_PROXY */
